@@ -957,6 +957,34 @@ func (fx *FnExec) evalIdent(name string, env *evalEnv) (cval, error) {
 			return fx.cvalOf(fx.val(v)), nil
 		}
 	}
+	// a local that lives in a cell (its address is taken or a closure captures it): the name means
+	// the cell's current content; of several cells with the name, the one allocated on the way here
+	var cell *ssa.Alloc
+	for _, b := range fx.Fn.Blocks {
+		for _, in := range b.Instrs {
+			al, ok := in.(*ssa.Alloc)
+			if !ok || al.Comment != name {
+				continue
+			}
+			at := env.at
+			if at == nil {
+				at = env.loop
+			}
+			if at != nil && !(b == at || b.Dominates(at)) {
+				continue
+			}
+			if _, done := fx.regs[al]; !done {
+				continue
+			}
+			cell = al
+		}
+	}
+	if cell != nil {
+		el := cell.Type().Underlying().(*types.Pointer).Elem()
+		var t string
+		fx.withHeap(env.heap, func() { t = fx.load(fx.placeOf(fx.val(cell))) })
+		return cval{S: t, T: el, Sort: fx.sortOf(el)}, nil
+	}
 	return cval{}, fmt.Errorf("unknown name %q", name)
 }
 
